@@ -331,6 +331,12 @@ inductive UseNs where
   | dflt | named (n : Ident) | star
   deriving DecidableEq, Repr, Inhabited
 
+/-- What the inclusion of an `@import`ed / `load-css`ed sheet can fail with before any of its
+    statements runs (`expandStmt` below decides it from the project text). -/
+inductive ImpErr where
+  | notFound | privateAccess | importLoop | unsupported
+  deriving DecidableEq, Repr, Inhabited
+
 inductive Stmt where
   /-- `$name: val [!default]` at the root -/
   | var (name : Ident) (val : Val) (guarded : Bool)
@@ -355,6 +361,14 @@ inductive Stmt where
       false in all of these, so `visit_variable_decl` (visitor.rs:1980) does not consult the `with`
       configuration; the declaration is local and creates no module member. -/
   | nested (id : Nat) (ctx : Nat) (name : Ident) (val : Val)
+  /-- an `@import` / `meta.load-css` that fails where it stands (file not found, syntax error in the
+      sheet, sheet already being imported, or outside the model); produced by `expandStmt` only -/
+  | fail (e : ImpErr)
+  /-- `@include meta.load-css(url, $with: cfg)` as SPECIFIED: the sheet is loaded as a module exactly
+      like `@use url with (cfg)` (once per compilation, same cache, same configuration rules) but no
+      namespace is added — none of its members becomes visible to the caller.  The code as it stands
+      does not do this (known finding C12-loadCssIsImport, `XSwitches.loadCssIsImport`). -/
+  | loadCssSpec (url : Url) (cfg : List (Ident × Val))
   deriving DecidableEq, Repr, Inhabited
 
 /-- A source file. `name` identifies it in traces and in the cache; `path` is its canonical path —
@@ -405,6 +419,10 @@ def ModSrc.parseError (m : ModSrc) : Bool := m.body.any Stmt.privateRef
 inductive Err where
   | moduleLoop | notFound | nsExists | noSuchNs | undefVar | undefFn | undefMixin
   | privateAccess | withNotDefault | starConflict | panic | outOfFuel
+  /-- "This file is already being loaded." (visitor.rs:968, `@import` of a sheet that is being imported) -/
+  | importLoop
+  /-- the input is outside what this model covers (never an answer about grass) -/
+  | unsupported
   deriving DecidableEq, Repr, Inhabited
 
 inductive PRes where
@@ -531,6 +549,10 @@ def lookupMember (sw : Switches) (env : Env) (st : St) (k : Kind) (ns : Option I
 
 abbrev LoadF := Url → Cfg → St → Out (Nat × Cfg)
 
+def ImpErr.toErr : ImpErr → Err
+  | .notFound => .notFound | .privateAccess => .privateAccess | .importLoop => .importLoop
+  | .unsupported => .unsupported
+
 def removeAll : List Ident → Cfg → Cfg
   | [], c => c
   | n :: ns, c => removeAll ns (c.remove n).2
@@ -646,6 +668,13 @@ def step (sw : Switches) (loadF : LoadF) (s : Stmt) (env : Env) (cfg : Cfg) (st 
       -- `Module::variables` / `functions` (mod.rs:483): `iter()` over the key set, minus private names
       let ks := ((scopeView sw k st.mods id).keys.filter fun x => !isPrivate x)
       ⟨st.emit (.probe pid (.keys ks)), .ok (env, cfg)⟩
+  | .fail e => ⟨st, .error e.toErr⟩
+  | .loadCssSpec url withs =>
+    let c0 : Cfg := if withs.isEmpty then Cfg.empty else ⟨withs, [], true⟩
+    let o := loadF url c0 st
+    match o.res with
+    | .error e => ⟨o.st, .error e⟩
+    | .ok (_, c1) => if c1.leftover then ⟨o.st, .error .withNotDefault⟩ else ⟨o.st, .ok (env, cfg)⟩
 
 def evalStmts (sw : Switches) (loadF : LoadF) : List Stmt → Env → Cfg → St → Out (Env × Cfg)
   | [], env, cfg, st => ⟨st, .ok (env, cfg)⟩
@@ -688,6 +717,141 @@ def run (sw : Switches) (proj : Project) (entry : Ident) : Out Unit :=
     match o.res with
     | .error e => ⟨o.st, .error e⟩
     | .ok _ => ⟨o.st, .ok ()⟩
+
+/-! ### `@import` of plain sheets and `meta.load-css` (visitor.rs:962 visit_dynamic_import_rule,
+    builtin/modules/meta.rs:17 load_css)
+
+  As the code stands both are *inclusion*: `visit_dynamic_import_rule` of a sheet without top-level
+  `@use`/`@forward` (visitor.rs:977) and `load_css` of any sheet (meta.rs:70) call
+  `visit_stylesheet` on the sheet in the environment and under the configuration of the module that
+  contains the rule, with `current_import_path` = the sheet (so its URLs resolve from its own
+  directory — the `Url`s of its statements carry that directory already).  `expandStmts` performs the
+  inclusion on the project text; everything else is the loader above, so every theorem about `run`
+  holds for `runX` (`C12_x_…`).  What inclusion cannot express is answered `unsupported`:
+  `@import` of a sheet that has `@use`/`@forward` (for_import environment, import_forwards),
+  `@import` nested in a rule, a file that is both imported and used as a module, a module below a
+  sheet that imports again, and sheets with statements whose rendering names the file
+  (markers, constant functions, mixins).
+-/
+
+structure XSwitches where
+  base : Switches
+  /-- known finding C12-loadCssIsImport (meta.rs:70; the `load_module` call below it is commented
+      out): `true` = `load-css` includes the sheet into the caller like `@import` and ignores `$with`;
+      `false` = the specified behaviour `Stmt.loadCssSpec`. -/
+  loadCssIsImport : Bool
+  deriving DecidableEq, Repr
+
+def XSwitches.spec : XSwitches := ⟨.spec, false⟩
+def XSwitches.now : XSwitches := ⟨.now, true⟩
+
+inductive XStmt where
+  | base (s : Stmt)
+  /-- `@import "url";` at the root of the file -/
+  | imp (url : Url)
+  /-- `@include meta.load-css("url", $with: (cfg));` at the root of the file -/
+  | loadCss (url : Url) (cfg : List (Ident × Val))
+  deriving DecidableEq, Repr, Inhabited
+
+structure XSrc where
+  name : Ident
+  path : FsPath
+  /-- a sheet is only ever `@import`ed / `load-css`ed, a non-sheet only `@use`d / `@forward`ed
+      (`XProject.ok` checks it) -/
+  sheet : Bool
+  body : List XStmt
+  deriving DecidableEq, Repr, Inhabited
+
+abbrev XProject := List XSrc
+
+def XProject.skeleton (xp : XProject) : Project := xp.map fun f => ⟨f.name, f.path, []⟩
+
+/-- `find_import` (+ canonicalize) for `@import` / `load-css`: the same candidates as for `@use`
+    (`.import` siblings are C13's and not in these projects) -/
+def resolveX (xp : XProject) (u : Url) : Option XSrc :=
+  (resolve xp.skeleton u).bind fun m => xp.find? fun f => f.name == m.name
+
+def XStmt.privateRef : XStmt → Bool
+  | .base b => b.privateRef
+  | _ => false
+
+def XSrc.parseError (f : XSrc) : Bool := f.body.any XStmt.privateRef
+
+def XStmt.isLoad : XStmt → Bool
+  | .base (.use _ _ _) => true
+  | .base (.forward _ _ _) => true
+  | _ => false
+
+/-- statements whose rendering names the file they stand in (or that this inclusion does not cover)
+    may not occur in a sheet -/
+def sheetStmtOK : XStmt → Bool
+  | .base .css => false
+  | .base .dbg => false
+  | .base (.mixin _) => false
+  | .base (.fn _ .const) => false
+  | .base (.nested _ _ _ _) => false
+  | .base (.fail _) => false
+  | .base (.loadCssSpec _ _) => false
+  | _ => true
+
+/-- Inclusion.  `stack`: the sheets being included at this point (`active_modules` holds them while
+    `visit_stylesheet` runs, visitor.rs:185/198), innermost first, below them the file itself. -/
+def expandStmts (asFound : Bool) (xp : XProject) : Nat → List Ident → List XStmt → List Stmt
+  | 0, _, _ => [.fail .unsupported]
+  | fuel + 1, stack, ss => ss.flatMap fun s =>
+    match s with
+    | .base b => [b]
+    | .imp u =>
+      match resolveX xp u with
+      | none => [.fail .notFound]                              -- "Can't find stylesheet to import."
+      | some f =>
+        if f.parseError then [.fail .privateAccess]            -- the sheet is parsed before anything else (:934)
+        else if stack.contains f.name then [.fail .importLoop] -- "This file is already being loaded." (:967)
+        else if !f.sheet || !f.body.all sheetStmtOK || f.body.any XStmt.isLoad then [.fail .unsupported]
+        else expandStmts asFound xp fuel (f.name :: stack) f.body
+    | .loadCss u w =>
+      if asFound then
+        match resolveX xp u with
+        | none => [.fail .notFound]
+        | some f =>
+          if f.parseError then [.fail .privateAccess]
+          -- no `active_modules` test (meta.rs:68-70), `$with` only warned about (:37)
+          else if !f.sheet || !f.body.all sheetStmtOK then [.fail .unsupported]
+          else expandStmts asFound xp fuel (f.name :: stack) f.body
+      else [.loadCssSpec u w]
+
+def expandProj (asFound : Bool) (xp : XProject) : Project :=
+  xp.map fun f => ⟨f.name, f.path, expandStmts asFound xp (xp.length + 1) [f.name] f.body⟩
+
+/-- no `@import` / `load-css` in the file nor in any module it loads -/
+def importFree (xp : XProject) : Nat → XSrc → Bool
+  | 0, _ => false
+  | fuel + 1, f => f.body.all fun s =>
+    match s with
+    | .imp _ => false
+    | .loadCss _ _ => false
+    | .base (.use u _ _) => match resolveX xp u with | some g => importFree xp fuel g | none => true
+    | .base (.forward u _ _) => match resolveX xp u with | some g => importFree xp fuel g | none => true
+    | _ => true
+
+def loadTargetOK (xp : XProject) (fromSheet : Bool) (u : Url) : Bool :=
+  match resolveX xp u with
+  | some g => !g.sheet && (!fromSheet || importFree xp (xp.length + 1) g)
+  | none => true
+
+/-- sheets and modules are disjoint, and no module below a sheet imports again (then the sheets in
+    `active_modules` are exactly the `stack` of `expandStmts`) -/
+def XProject.ok (xp : XProject) : Bool :=
+  xp.all fun f => f.body.all fun s =>
+    match s with
+    | .base (.use u _ _) => loadTargetOK xp f.sheet u
+    | .base (.forward u _ _) => loadTargetOK xp f.sheet u
+    | _ => true
+
+def runX (xsw : XSwitches) (xp : XProject) (entry : Ident) : Out Unit :=
+  if xp.ok && !(xp.any fun f => f.sheet && f.name == entry) then
+    run xsw.base (expandProj xsw.loadCssIsImport xp) entry
+  else ⟨⟨[], [], [], []⟩, .error .unsupported⟩
 
 /-! ### the per-input property predicates P̂ (used by the theorems and, through the driver, on
     the implementation's own observations) -/
@@ -769,7 +933,7 @@ def errStr : Err → String
   | .noSuchNs => "noSuchNs" | .undefVar => "undefVar" | .undefFn => "undefFn"
   | .undefMixin => "undefMixin" | .privateAccess => "privateAccess"
   | .withNotDefault => "withNotDefault" | .starConflict => "starConflict" | .panic => "panic"
-  | .outOfFuel => "outOfFuel"
+  | .outOfFuel => "outOfFuel" | .importLoop => "importLoop" | .unsupported => "unsupported"
 
 def presStr : PRes → String
   | .absent => "absent"
@@ -864,6 +1028,35 @@ def rdMods (lps : List FsPath) (lexical : Bool) : Nat → List String → Option
     pure (⟨rdId name, p, ss⟩ :: r, ts2)
   | _, _ => none
 
+def rdXStmt (rdU : String → Option Url) : List String → Option (XStmt × List String)
+  | "I" :: u :: ts => do pure (.imp (← rdU u), ts)
+  | "L" :: u :: k :: ts => do
+    let k ← k.toNat?
+    let (ps, ts') ← rdPairs k ts
+    pure (.loadCss (← rdU u) ps, ts')
+  | ts => do
+    let (s, ts') ← rdStmt rdU ts
+    pure (.base s, ts')
+
+def rdXStmts (rdU : String → Option Url) : Nat → List String → Option (List XStmt × List String)
+  | 0, ts => some ([], ts)
+  | n + 1, ts => do
+    let (s, ts1) ← rdXStmt rdU ts
+    let (r, ts2) ← rdXStmts rdU n ts1
+    pure (s :: r, ts2)
+
+/-- `M|S <name> <canonical path> <k> stmt…` (`S` = sheet) -/
+def rdXMods (lps : List FsPath) (lexical : Bool) : Nat → List String → Option (XProject × List String)
+  | 0, ts => some ([], ts)
+  | n + 1, kind :: name :: path :: k :: ts => do
+    let k ← k.toNat?
+    let sheet ← if kind == "S" then some true else if kind == "M" then some false else none
+    let p := rdPath path
+    let (ss, ts1) ← rdXStmts (rdUrl p.dropLast lps lexical) k ts
+    let (r, ts2) ← rdXMods lps lexical n ts1
+    pure (⟨rdId name, p, sheet, ss⟩ :: r, ts2)
+  | _, _ => none
+
 def rdSwitches (s : String) : Option Switches :=
   if s == "spec" then some .spec else if s == "now" then some .now else if s == "pinned" then some .pinned
   else if s == "beforeFixes" then some .beforeFixes
@@ -896,6 +1089,23 @@ def handle : List String → String
       let lps := if lps == "-" then [] else (lps.splitOn ",").map rdPath
       match rdMods lps lex n ts with
       | some (proj, []) => if proj.wf && proj.pathsDistinct then outStr (run sw proj (rdId entry)) else "unsupported"
+      | _ => "bad-op"
+    | _, _, _ => "bad-op"
+  -- runx <switches> <entry> <lexical 0|1> <load paths> <nfiles> (M|S) …: projects with @import / load-css;
+  -- `spec` = everything as specified, anything else = those base switches with load-css as found
+  | "runx" :: sw :: entry :: lex :: lps :: n :: ts =>
+    match rdSwitches sw, n.toNat?, parseBool? lex with
+    | some bsw, some n, some lex =>
+      let lps := if lps == "-" then [] else (lps.splitOn ",").map rdPath
+      match rdXMods lps lex n ts with
+      | some (xp, []) =>
+        let proj := expandProj (sw != "spec") xp
+        if proj.wf && proj.pathsDistinct then
+          let o := runX ⟨bsw, sw != "spec"⟩ xp (rdId entry)
+          match o.res with
+          | .error .unsupported => "unsupported"
+          | _ => outStr o
+        else "unsupported"
       | _ => "bad-op"
     | _, _, _ => "bad-op"
   -- once <enters,…> <css,…>: P̂ of loads-once on observed lists
